@@ -121,6 +121,17 @@ run("identity-lowercase-ds", BASE_MODS, {"ksk_a": dict(ceremony.ksk_def(KA), ds_
 # right public object, wrong private object (split pair)
 run("identity-split-pair", mods_for([S.obj("Ka", "pub", KA), S.obj("Ka", "priv", KA_OTHER)]), {"ksk_a": ceremony.ksk_def(KA)}, strict=False)
 
+# a key whose key tag sum carries a second time (RFC 4034 App. B discards that carry): its tag is its tag, and the tag one higher is another key's
+KCARRY = ksrxml.mk_key(P.ec_tag_carry(13, 257), alg=13, flags=257, ident="Kcarry")
+P.save()
+for with_ds in (True, False):
+    run("identity-tag-carry-right", mods_for(S.pair("Kcarry", KCARRY)), {"ksk_a": ceremony.ksk_def(KCARRY, with_ds=with_ds)}, zs=[[ZEC]], desc={"tag": KCARRY["tag"], "with_ds": with_ds})
+    for off in (1, -1):
+        run("identity-tag-carry-off-by-one", mods_for(S.pair("Kcarry", KCARRY)), {"ksk_a": ceremony.ksk_def(KCARRY, with_ds=with_ds, key_tag=(KCARRY["tag"] + off) % 65536 or 1)},
+            zs=[[ZEC]], desc={"tag": KCARRY["tag"], "configured": (KCARRY["tag"] + off) % 65536 or 1, "with_ds": with_ds})
+        run("identity-tag-carry-off-by-one", mods_for(S.pair("Kcarry", KCARRY) + S.pair("Kb", KB)), {"ksk_a": ceremony.ksk_def(KCARRY, with_ds=with_ds, key_tag=(KCARRY["tag"] + off) % 65536 or 1), "ksk_b": ceremony.ksk_def(KB)},
+            schema={1: {"publish": ["ksk_a", "ksk_b"], "sign": ["ksk_b"], "revoke": []}}, nb=1, desc={"tag": KCARRY["tag"], "role": "published only", "with_ds": with_ds})
+
 # 3. size / exponent / algorithm family claims
 run("claim-other-size", mods_for(S.pair("Ka", KA_2048)), {"ksk_a": ceremony.ksk_def(KA)})
 run("claim-other-exponent", mods_for(S.pair("Ka", KA_E3)), {"ksk_a": ceremony.ksk_def(KA)})
